@@ -55,7 +55,14 @@ def case_for(cid, decls, bpj, ideal=None, entities=None, c20=False, mems=None, h
     ideal: harvested logical edges -> check the idealised private-network circuit instead"""
     names = [d[1] for d in decls]
     input_vars = {d[1]: i + 1 for i, d in enumerate(decls) if d[0] == "in"}
-    ex = bpexport.Exporter(bpj, input_vars=input_vars)
+    source_contents = {}
+    for en in (entities or []):
+        if en.get("content"):
+            idx = find_entity(bpj, en["proto"], en["x"], en["y"])
+            if len(idx) == 1:
+                num = bpexport.entities_of(bpj)[idx[0]]["entity_number"]
+                source_contents[num] = [(s, input_vars[decls[i][1]]) for s, i in en["content"]]
+    ex = bpexport.Exporter(bpj, input_vars=input_vars, source_contents=source_contents)
     if ideal is not None:
         ex.set_ideal(ideal)
     # intern the program's explicit signal names first so that ids are stable
@@ -72,7 +79,9 @@ def case_for(cid, decls, bpj, ideal=None, entities=None, c20=False, mems=None, h
             bqs.append(f"{{| bq_decl := {i}%nat; bq_rn := {ex.nid(en, 1)}; bq_gn := {ex.nid(en, 2)} |}}")
             outs.append((var, "<bundle>"))
             continue
-        if csig is None:
+        if csig == "bundle" and decls[i][0] == "sig" and decls[i][2][0] == "sel":
+            csig = decls[i][2][2]  # a named read of an entity's output is observed at that entity, on the selected signal
+        if csig is None or csig == "bundle":
             continue
         qs.append(
             f"{{| q_decl := {i}%nat; q_rn := {ex.nid(en, 1)}; q_gn := {ex.nid(en, 2)}; q_csig := {ex.sig.p(csig)} |}}"
@@ -81,7 +90,7 @@ def case_for(cid, decls, bpj, ideal=None, entities=None, c20=False, mems=None, h
     ds_text = fa.coq_decls(decls, ex.sig, input_vars, exposed)
     # signal ids may have grown while exporting decls (explicit names that the blueprint never
     # mentions): re-export so that b_univ covers them
-    ex2 = bpexport.Exporter(bpj, input_vars=input_vars, extra_signals=list(ex.sig.ids))
+    ex2 = bpexport.Exporter(bpj, input_vars=input_vars, extra_signals=list(ex.sig.ids), source_contents=source_contents)
     if ideal is not None:
         ex2.set_ideal(ideal)
     bp_text = ex2.export(f"bp_{cid}")
@@ -98,7 +107,7 @@ def case_for(cid, decls, bpj, ideal=None, entities=None, c20=False, mems=None, h
             outs.append((f"{en['name']}.enable@({en['x']},{en['y']})", en["proto"]))
     if rs:
         # the enable expressions may mention further explicit signal names
-        ex2 = bpexport.Exporter(bpj, input_vars=input_vars, extra_signals=list(ex.sig.ids))
+        ex2 = bpexport.Exporter(bpj, input_vars=input_vars, extra_signals=list(ex.sig.ids), source_contents=source_contents)
         if ideal is not None:
             ex2.set_ideal(ideal)
         bp_text = ex2.export(f"bp_{cid}")
@@ -268,21 +277,24 @@ def search_failing_input(cid, defs, n, n_inputs, rng, extra_values=()):
         for _ in range(100):
             envs.append([rng.randint(-20, 20) for _ in range(n_inputs)])
     lst = "[" + "; ".join("[" + "; ".join(fa.zc(v) for v in e) + "]" for e in envs) + "]"
-    expr = (
-        f"map (fun e => forallb (fun p => Z.eqb (fst p) (snd p)) "
-        f"(conc_progb bp_{cid} {n + 3}%nat ds_{cid} qs_{cid} rs_{cid} bqs_{cid} (env_of e))) {lst}"
-    )
-    rc, outs, text = H.coq_eval(defs, [expr], EXTRA, tag=f"srch{cid}")
-    if not outs or outs[0] is None:
-        return None
-    flags = re.findall(r"true|false", outs[0])
-    for e, f in zip(envs, flags):
-        if f == "false":
-            el = "[" + "; ".join(fa.zc(v) for v in e) + "]"
-            rc, o2, _ = H.coq_eval(defs, [f"conc_progb bp_{cid} {n + 3}%nat ds_{cid} qs_{cid} rs_{cid} bqs_{cid} (env_of {el})"], EXTRA,
-                                   tag=f"srch2{cid}")
-            pairs = re.findall(r"\((-?\d+),\s*(-?\d+)\)", (o2[0] or "").replace("%Z", ""))
-            return e, [(int(a), int(b)) for a, b in pairs]
+    # a circuit that never settles (a feedback loop created by a wiring defect) shows different values at
+    # different ticks: look at the tick by which every feed-forward circuit of this size has settled, and later
+    for ticks in (n + 3, 2 * n + 8):
+        expr = (
+            f"map (fun e => forallb (fun p => Z.eqb (fst p) (snd p)) "
+            f"(conc_progb bp_{cid} {ticks}%nat ds_{cid} qs_{cid} rs_{cid} bqs_{cid} (env_of e))) {lst}"
+        )
+        rc, outs, text = H.coq_eval(defs, [expr], EXTRA, tag=f"srch{cid}")
+        if not outs or outs[0] is None:
+            continue
+        flags = re.findall(r"true|false", outs[0])
+        for e, f in zip(envs, flags):
+            if f == "false":
+                el = "[" + "; ".join(fa.zc(v) for v in e) + "]"
+                rc, o2, _ = H.coq_eval(defs, [f"conc_progb bp_{cid} {ticks}%nat ds_{cid} qs_{cid} rs_{cid} bqs_{cid} (env_of {el})"], EXTRA,
+                                       tag=f"srch2{cid}")
+                pairs = re.findall(r"\((-?\d+),\s*(-?\d+)\)", (o2[0] or "").replace("%Z", ""))
+                return e, [(int(a), int(b)) for a, b in pairs]
     return None
 
 
